@@ -21,6 +21,41 @@ def units_of(viol):
     return "; ".join(sorted(set(out)))
 
 
+UB = "<!-- BEGIN GENERATED UNITS -->"
+UE = "<!-- END GENERATED UNITS -->"
+
+
+def units_table():
+    import sys
+    sys.path.insert(0, VERIF)
+    import checks_config
+    out = [UB, "", "### 9.4 Units per property (generated from `units/`)", "",
+           "| property | unit | kind | package | quick | thorough |", "|---|---|---|---|---|---|"]
+
+    def fmt(u, tier):
+        if tier not in u.get("tiers", ("quick", "thorough")):
+            return "-"
+        c = dict(u.get("common", {}))
+        c.update(u.get(tier, {}))
+        bits = []
+        if "checks" in c:
+            bits.append("%d x %d cases" % (c.get("shards", 1), c["checks"]))
+        elif c.get("shards", 1) > 1:
+            bits.append("%d shards" % c["shards"])
+        if c.get("fuzztime"):
+            bits.append("fuzz " + c["fuzztime"])
+        elif u["kind"] == "fuzz":
+            bits.append("seed corpus replay")
+        if c.get("race"):
+            bits.append("-race")
+        return ", ".join(bits) or "1 run"
+    for pid in sorted(checks_config.CHECKS):
+        for u in checks_config.CHECKS[pid]["units"]:
+            out.append("| %s | %s | %s | %s | %s | %s |" % (pid, u["name"], u["kind"], u["pkg"].lstrip("./"), fmt(u, "quick"), fmt(u, "thorough")))
+    out += ["", UE]
+    return "\n".join(out)
+
+
 def main():
     lines = [BEGIN, ""]
     lines.append("### 10.1 Hand-written mutations (`tools/sens.py`, quick tier, scratch worktrees)")
@@ -95,6 +130,12 @@ def main():
         s = s[:s.index(BEGIN)] + block + s[s.index(END) + len(END):]
     else:
         s += "\n---------------------------------------------------------------------------\n\n## 10. Sensitivity: which checks catch which changes\n\n" + block + "\n"
+    ut = units_table()
+    if UB in s:
+        s = s[:s.index(UB)] + ut + s[s.index(UE) + len(UE):]
+    else:
+        marker = "\n---------------------------------------------------------------------------\n\n## 10. Sensitivity"
+        s = s.replace(marker, "\n" + ut + "\n" + marker, 1)
     open(p, "w").write(s)
     print("section 10 regenerated: %d/%d mutations caught" % (caught, tot))
 
